@@ -89,14 +89,17 @@ func runOp(op, text string, more []string) string {
 	case "dsl":
 		m, err := transformer.TransformDSLToProto(text)
 		if err != nil {
+			c13Hold("the error returned by TransformDSLToProto", func() string { return err.Error() })
 			return "ERR:" + err.Error()
 		}
+		c13Hold("the model returned by TransformDSLToProto", func() string { return fingerprint(m) })
 		return "OK:" + fingerprint(m)
 	case "modular":
 		m, ext, err := transformer.TransformModularDSLToProto(text)
 		if err != nil {
 			return "ERR:" + err.Error()
 		}
+		c13Hold("the model returned by TransformModularDSLToProto", func() string { return fingerprint(m) })
 		return fmt.Sprintf("OK:%s ext=%v", fingerprint(m), sortedKeys(ext))
 	case "json":
 		d, err := transformer.TransformJSONStringToDSL(text)
@@ -152,8 +155,10 @@ func runOp(op, text string, more []string) string {
 		}
 		m, err := transformer.TransformModuleFilesToModel(files, "1.2")
 		if err != nil {
-			return "ERR:" + err.Error()
+			c13Hold("the error returned by TransformModuleFilesToModel", func() string { return mergeErrText(err) })
+			return "ERR:" + mergeErrText(err)
 		}
+		c13Hold("the model returned by TransformModuleFilesToModel", func() string { return fingerprint(m) })
 		return "OK:" + fingerprint(m)
 	}
 	return "unknown op"
